@@ -487,8 +487,12 @@ def run_check(prop: str, tier: str) -> int:
         'assumptions': getattr(mod, 'ASSUMPTIONS', []),
         'wall_s': round(wall, 2), 'violations': len(new_violations),
     }
-    os.makedirs(os.path.join(VERIF, 'evidence'), exist_ok=True)
-    with open(os.path.join(VERIF, 'evidence', f'{prop}.json'), 'w') as f:
+    # evidence of the registered checks goes to /verif/evidence; the self-tests that run the checks against seeded
+    # changes (selftest-seeded, selftest-reverts, VERIF_REPO_SRC override) redirect it so that it is not overwritten
+    evdir = os.environ.get('VERIF_EVIDENCE_DIR') or (os.path.join(scratch_dir(), 'evidence') if 'VERIF_REPO_SRC' in os.environ
+                                                      else os.path.join(VERIF, 'evidence'))
+    os.makedirs(evdir, exist_ok=True)
+    with open(os.path.join(evdir, f'{prop}.json'), 'w') as f:
         json.dump(evidence, f, indent=1, default=str)
 
     print(f"[{prop} {tier}] executions={total['executions']} states={total['nodes']} transitions={total['edges']} "
